@@ -1,6 +1,7 @@
 package props
 
 import (
+	sdkmath "cosmossdk.io/math"
 	"encoding/binary"
 	"fmt"
 	"math/big"
@@ -63,6 +64,14 @@ func c07Gen(r *rand.Rand, tier string) []Case {
 		n = 400
 	}
 	var out []Case
+	// fixed case: prices at the machine-word boundary (tip and cap below 2^64, tip + base fee above), charged for real and
+	// through the floor / fee checks
+	out = append(out, Case{"deploy",
+		"gas ? ? 0 ? # kind=transfer pricing=dynamic-word limit=21000", "gas ? ? 0 ? # kind=set pricing=dynamic-word limit=100000",
+		"gas ? ? 500000000000000000 ? # kind=clear pricing=dynamic-word limit=60000", "gas ? ? 0 ? # kind=revert pricing=dynamic-word limit=50000",
+		"vfee 2 21000 0 18446744073709551615 18446744073709551615 1000000000", "vfee 2 21000 0 18446744073709551000 18446744073709551615 875000000",
+		"efloor 1000000000000000000 2 21000 0 18446744073709551615 18446744073709551615 1000000000",
+		"efloor 20000000000000000000000000000000000000 2 21000 0 18446744073709551615 18446744073709551615 1000000000"})
 	for i := 0; i < n; i++ {
 		c := Case{"deploy"}
 		mults := []string{"0", "500000000000000000", "1000000000000000000", fmt.Sprint(r.Int63n(1_000_000_000_000_000_000))}
@@ -73,7 +82,7 @@ func c07Gen(r *rand.Rand, tier string) []Case {
 			if kind == "oog" {
 				limit = 21000 + r.Intn(2500)
 			}
-			c = append(c, fmt.Sprintf("gas ? ? %s ? # kind=%s pricing=%s limit=%d", pick(r, mults), kind, pick(r, []string{"legacy", "dynamic", "dynamic-capped"}), limit))
+			c = append(c, fmt.Sprintf("gas ? ? %s ? # kind=%s pricing=%s limit=%d", pick(r, mults), kind, pick(r, []string{"legacy", "dynamic", "dynamic-capped", "legacy", "dynamic", "dynamic-capped", "dynamic-word"}), limit))
 		}
 		// decorator-level boundary tuples
 		for j := 0; j < 12; j++ {
@@ -252,6 +261,23 @@ func c07Exec(c Case) (outs []string, fails []Failure, tags []string) {
 					args.GasTipCap = big.NewInt(int64(1 + i%7))
 					args.GasFeeCap = new(big.Int).Mul(base, big.NewInt(3))
 					price = new(big.Int).Add(base, args.GasTipCap)
+				case "dynamic-word":
+					// tip and cap just below 2^64, each fits a machine word, tip + base does not: the cap binds
+					w := new(big.Int).Sub(new(big.Int).Lsh(big.NewInt(1), 64), big.NewInt(int64(1+i%3)))
+					args.GasTipCap, args.GasFeeCap = w, new(big.Int).Set(w)
+					price = new(big.Int).Set(w)
+					// the sender must be able to pay gasLimit × cap
+					need := new(big.Int).Mul(new(big.Int).SetUint64(limit), new(big.Int).Mul(w, big.NewInt(2)))
+					if have := app.BankKeeper.GetBalance(ctx, kr.GetKey(sender).AccAddr, nw.GetDenom()).Amount.BigInt(); have.Cmp(need) < 0 {
+						coins := sdk.NewCoins(sdk.NewCoin(nw.GetDenom(), sdkmath.NewIntFromBigInt(need)))
+						if err := app.BankKeeper.MintCoins(ctx, "coinomics", coins); err != nil {
+							panic(err)
+						}
+						if err := app.BankKeeper.SendCoinsFromModuleToAccount(ctx, "coinomics", kr.GetKey(sender).AccAddr, coins); err != nil {
+							panic(err)
+						}
+					}
+					tags = append(tags, "price-at-word-boundary")
 				default: // tip larger than cap − base: the cap binds
 					args.GasFeeCap = new(big.Int).Add(base, big.NewInt(2))
 					args.GasTipCap = big.NewInt(1000)
